@@ -30,6 +30,11 @@ Inductive cmpop := Eq | NotEq | Lt | LtE | Gt | GtE | Is | IsNot | In | NotIn.
 Inductive boolop := And | Or.
 Inductive akind := APos | AStar | ANamed (name : string) | ADStar.
 Inductive pkind := KPosOnly | KPos | KStar | KKwOnly | KDStar.
+(* the Constant values fastparse turns into a NameExpr *)
+Inductive cname := CNone | CTrue | CFalse.
+Definition cname_str (c : cname) : string := match c with CNone => "None" | CTrue => "True" | CFalse => "False" end%string.
+(* comprehension flavours that share one GeneratorExpr *)
+Inductive ckind := CList | CSet | CGen.
 
 (* ---------------------------------------------------------------- source trees (mutual, explicit list types) *)
 Inductive expr :=
@@ -51,6 +56,20 @@ Inductive expr :=
 | ESlice (p : pos) (lo hi step : oexpr)
 | EStar (p : pos) (e : expr)
 | ELambda (p : pos) (ps : params) (body : expr)
+| EConst (p : pos) (c : cname)
+| EEllipsis (p : pos)
+| EComp (p : pos) (k : ckind) (elt : expr) (g : gens)
+| EDictComp (p : pos) (key value : expr) (g : gens)
+| EYield (p : pos) (v : oexpr)
+| EYieldFrom (p : pos) (e : expr)
+| EAwait (p : pos) (e : expr)
+(* name := value; tp = position of the target Name *)
+| EWalrus (p tp : pos) (id : string) (v : expr)
+(* bytes literal, s = mypy's human readable repr of its value *)
+| EBytes (p : pos) (s : string)
+(* float / complex literals: the IEEE-754 bit patterns of the value(s) *)
+| EFloat (p : pos) (bits : Z)
+| EComplex (p : pos) (re im : Z)
 with exprs := ENil | ECons (e : expr) (es : exprs)
 with args := ANil | ACons (k : akind) (e : expr) (a : args)
 with cmps := CNil | CCons (op : cmpop) (e : expr) (c : cmps)
@@ -59,7 +78,9 @@ with oexpr := ONone | OSome (e : expr)
 with ditems := DNil | DCons (k : oexpr) (v : expr) (rest : ditems)
 (* parameters in CPython's order (posonly, args, vararg, kwonly, kwarg), each with its default.  p = the ast.arg position
    (the NAME only); sp = the extent as written, i.e. including a leading `*` / `**` (= p for the other kinds) *)
-with params := PNil | PCons (p sp : pos) (name : string) (k : pkind) (d : oexpr) (rest : params).
+with params := PNil | PCons (p sp : pos) (name : string) (k : pkind) (d : oexpr) (rest : params)
+(* comprehension clauses `for target in iter if c1 if c2 ...` (not async) *)
+with gens := GNil | GCons (target iter : expr) (ifs : exprs) (rest : gens).
 
 (* the type-expression sublanguage both converters turn into UnboundType / UnionType: (dotted) names, None,
    subscripts of a (dotted) name, `|` unions.  tup = the subscript's slice is a tuple display *)
@@ -110,7 +131,8 @@ Definition epos (e : expr) : pos :=
   match e with
   | EName p _ | EInt p _ | EStr p _ | EAttr p _ _ | ECall p _ _ | EBin p _ _ _ | EUnary p _ _ | ECompare p _ _
   | EBoolOp p _ _ _ _ | EIfExp p _ _ _ | ETuple p _ | EList p _ | ESet p _ | EDict p _ | ESubscript p _ _
-  | ESlice p _ _ _ | EStar p _ | ELambda p _ _ => p
+  | ESlice p _ _ _ | EStar p _ | ELambda p _ _ | EConst p _ | EEllipsis p | EComp p _ _ _ | EDictComp p _ _ _
+  | EYield p _ | EYieldFrom p _ | EAwait p _ | EWalrus p _ _ _ | EBytes p _ | EFloat p _ | EComplex p _ _ => p
   end.
 Definition spos (s : stmt) : pos :=
   match s with
@@ -145,6 +167,19 @@ Inductive mexpr :=
 | MTemp (p : pos)
 (* LambdaExpr: arguments and the body Block([ReturnStmt(expr)]) with the positions of the block and of the return *)
 | MLambda (p : pos) (args : list marg) (bp rp : pos) (body : mexpr)
+| MEllipsis (p : pos)
+| MYield (p : pos) (e : option mexpr)
+| MYieldFrom (p : pos) (e : mexpr)
+| MAwait (p : pos) (e : mexpr)
+| MAssignExpr (p : pos) (target value : mexpr)
+| MBytes (p : pos) (s : string)
+| MFloat (p : pos) (bits : Z)
+| MComplex (p : pos) (re im : Z)
+(* GeneratorExpr(left_expr, indices, sequences, condlists, is_async) *)
+| MGenerator (p : pos) (left : mexpr) (indices sequences : list mexpr) (condlists : list (list mexpr)) (is_async : list bool)
+| MListComp (p : pos) (generator : mexpr)
+| MSetComp (p : pos) (generator : mexpr)
+| MDictComp (p : pos) (key value : mexpr) (indices sequences : list mexpr) (condlists : list (list mexpr)) (is_async : list bool)
 (* Argument (position p) with its Var (position vp) *)
 with marg := MArg (p vp : pos) (name : string) (kind : argkind) (init : option mexpr) (pos_only : bool).
 
@@ -192,7 +227,8 @@ Definition mepos (e : mexpr) : pos :=
   match e with
   | MName p _ | MInt p _ | MStr p _ | MMember p _ _ | MSuper p _ _ | MCall p _ _ _ _ | MOp p _ _ _ | MUnary p _ _
   | MCompare p _ _ | MCond p _ _ _ | MTuple p _ | MList p _ | MSet p _ | MDict p _ | MIndex p _ _ | MSlice p _ _ _
-  | MStar p _ | MTemp p | MLambda p _ _ _ _ => p
+  | MStar p _ | MTemp p | MLambda p _ _ _ _ | MEllipsis p | MYield p _ | MYieldFrom p _ | MAwait p _ | MAssignExpr p _ _ | MBytes p _ | MFloat p _ | MComplex p _ _ | MGenerator p _ _ _ _ _ | MListComp p _ | MSetComp p _
+  | MDictComp p _ _ _ _ _ _ => p
   end.
 Definition mspos (s : mstmt) : pos :=
   match s with
@@ -272,6 +308,7 @@ Fixpoint group (p : pos) (op : string) (v0 v1 : mexpr) (rest : list mexpr) : mex
   | v2 :: rest' => MOp p op v0 (group p op v1 v2 rest')
   end.
 
+Fixpoint gasync (g : gens) : list bool := match g with GNil => [] | GCons _ _ _ r => false :: gasync r end.
 Fixpoint arg_kinds (a : args) : list argkind :=
   match a with ANil => [] | ACons k _ a' => kind_of k :: arg_kinds a' end.
 Fixpoint arg_names (a : args) : list (option string) :=
@@ -300,6 +337,21 @@ Fixpoint conv_e (e : expr) : mexpr :=
   | EStar p e => MStar p (conv_e e)
   (* visit_Lambda: a synthetic ast.Return carrying only lineno/col_offset of the body; e.set_line(lineno, col_offset) *)
   | ELambda p ps b => MLambda (no_end p) (conv_params ps) (no_end (epos b)) (no_end (epos b)) (conv_e b)
+  (* visit_Constant: None / True / False become NameExpr; Ellipsis an EllipsisExpr *)
+  | EConst p c => MName p (cname_str c)
+  | EEllipsis p => MEllipsis p
+  (* visit_ListComp / visit_SetComp wrap visit_GeneratorExp applied to the SAME ast node: both get its position *)
+  | EComp p k elt g =>
+      let gen := MGenerator p (conv_e elt) (conv_gtargets g) (conv_giters g) (conv_gifs g) (gasync g) in
+      match k with CList => MListComp p gen | CSet => MSetComp p gen | CGen => gen end
+  | EDictComp p ky v g => MDictComp p (conv_e ky) (conv_e v) (conv_gtargets g) (conv_giters g) (conv_gifs g) (gasync g)
+  | EYield p v => MYield p (conv_oe v)
+  | EYieldFrom p e => MYieldFrom p (conv_e e)
+  | EAwait p e => MAwait p (conv_e e)
+  | EWalrus p tp id v => MAssignExpr p (MName tp id) (conv_e v)
+  | EBytes p s => MBytes p s
+  | EFloat p b => MFloat p b
+  | EComplex p a b => MComplex p a b
   end
 with conv_es (es : exprs) : list mexpr :=
   match es with ENil => [] | ECons e es' => conv_e e :: conv_es es' end
@@ -315,7 +367,10 @@ with conv_params (ps : params) : list marg :=
   match ps with
   | PNil => []
   | PCons p _ n k d r => MArg p p n (param_kind k (has_default d)) (conv_oe d) (param_pos_only k n) :: conv_params r
-  end.
+  end
+with conv_gtargets (g : gens) : list mexpr := match g with GNil => [] | GCons t _ _ r => conv_e t :: conv_gtargets r end
+with conv_giters (g : gens) : list mexpr := match g with GNil => [] | GCons _ i _ r => conv_e i :: conv_giters r end
+with conv_gifs (g : gens) : list (list mexpr) := match g with GNil => [] | GCons _ _ c r => conv_es c :: conv_gifs r end.
 
 Fixpoint conv_ckws (k : ckws) : list (string * mexpr) :=
   match k with KNil => [] | KCons n e r => (n, conv_e e) :: conv_ckws r end.
@@ -434,10 +489,13 @@ Inductive tag :=
 | FOR_STMT | CONDITIONAL_EXPR | FUNC_DEF_STMT | CLASS_DEF | DECORATOR
 | SET_EXPR | DICT_EXPR | INDEX_EXPR | SLICE_EXPR | STAR_EXPR | LAMBDA_EXPR
 | OPERATOR_ASSIGNMENT_STMT | BREAK_STMT | CONTINUE_STMT | GLOBAL_DECL | NONLOCAL_DECL | DEL_STMT | ASSERT_STMT | RAISE_STMT
-| IMPORT | IMPORT_FROM | IMPORT_ALL | WITH_STMT | TRY_STMT | TEMP_NODE | UNBOUND_TYPE | UNION_TYPE.
+| IMPORT | IMPORT_FROM | IMPORT_ALL | WITH_STMT | TRY_STMT | TEMP_NODE | UNBOUND_TYPE | UNION_TYPE
+| ELLIPSIS_EXPR | GENERATOR_EXPR | LIST_COMPREHENSION | SET_COMPREHENSION | DICT_COMPREHENSION
+| YIELD_EXPR | YIELD_FROM_EXPR | AWAIT_EXPR | ASSIGNMENT_EXPR | BYTES_EXPR | FLOAT_EXPR | COMPLEX_EXPR | LITERAL_FLOAT.
 
 (* primitive reads of librt.internal: read_tag / read_int / read_str / read_bool *)
-Inductive tok := T (t : tag) | I (z : Z) | S (s : string) | B (b : bool).
+(* F: read_float, the value as its IEEE-754 bit pattern *)
+Inductive tok := T (t : tag) | I (z : Z) | S (s : string) | B (b : bool) | F (bits : Z).
 
 Definition loc_k (p : pos) (k : list tok) : list tok :=
   T LOCATION :: I (p_line p) :: I (p_col p) :: I (p_eline p - p_line p) :: I (p_ecol p - p_col p) :: k.
@@ -450,6 +508,8 @@ Fixpoint len_args (a : args) : nat := match a with ANil => O | ACons _ _ a' => D
 Fixpoint len_cmps (c : cmps) : nat := match c with CNil => O | CCons _ _ c' => Datatypes.S (len_cmps c') end.
 Fixpoint len_ditems (d : ditems) : nat := match d with DNil => O | DCons _ _ r => Datatypes.S (len_ditems r) end.
 Fixpoint len_params (ps : params) : nat := match ps with PNil => O | PCons _ _ _ _ _ r => Datatypes.S (len_params r) end.
+Fixpoint len_gens (g : gens) : nat := match g with GNil => O | GCons _ _ _ r => Datatypes.S (len_gens r) end.
+Fixpoint gasync_k (g : gens) (k : list tok) : list tok := match g with GNil => k | GCons _ _ _ r => B false :: gasync_k r k end.
 Fixpoint len_ss (ss : stmts) : nat := match ss with SNil => O | SCons _ ss' => Datatypes.S (len_ss ss') end.
 Fixpoint len_el (el : elifs) : nat := match el with LNil => O | LCons _ _ _ _ el' => Datatypes.S (len_el el') end.
 Fixpoint len_ckws (k : ckws) : nat := match k with KNil => O | KCons _ _ r => Datatypes.S (len_ckws r) end.
@@ -507,6 +567,24 @@ Fixpoint emit_e (e : expr) (k : list tok) {struct e} : list tok :=
       T LAMBDA_EXPR :: T LIST_GEN :: nat_k (len_params ps) (emit_params ps
         (T BLOCK :: T LIST_GEN :: I 1 :: B false :: T RETURN_STMT :: B true :: emit_e b (loc_k (epos b) (T END_TAG ::
           T END_TAG :: loc_k p (T END_TAG :: k)))))
+  | EConst p c => T NAME_EXPR :: str_k (cname_str c) (loc_k p (T END_TAG :: k))
+  | EEllipsis p => T ELLIPSIS_EXPR :: loc_k p (T END_TAG :: k)
+  (* read_generator_expr: left, n, indices, sequences, condlists, is_async; GENERATOR_EXPR adds loc END, the list/set
+     comprehension wraps it: TAG <generator fields> loc END *)
+  | EComp p ck elt g =>
+      T (match ck with CList => LIST_COMPREHENSION | CSet => SET_COMPREHENSION | CGen => GENERATOR_EXPR end) ::
+        emit_e elt (int_k (Z.of_nat (len_gens g)) (emit_gtargets g (emit_giters g (emit_gifs g (gasync_k g (loc_k p (T END_TAG :: k)))))))
+  | EDictComp p ky v g =>
+      T DICT_COMPREHENSION :: emit_e ky (emit_e v
+        (int_k (Z.of_nat (len_gens g)) (emit_gtargets g (emit_giters g (emit_gifs g (gasync_k g (loc_k p (T END_TAG :: k))))))))
+  | EYield p v => T YIELD_EXPR :: emit_oe v (loc_k p (T END_TAG :: k))
+  | EYieldFrom p e => T YIELD_FROM_EXPR :: emit_e e (loc_k p (T END_TAG :: k))
+  | EAwait p e => T AWAIT_EXPR :: emit_e e (loc_k p (T END_TAG :: k))
+  | EWalrus p tp id v =>
+      T ASSIGNMENT_EXPR :: T NAME_EXPR :: str_k id (loc_k tp (T END_TAG :: emit_e v (loc_k p (T END_TAG :: k))))
+  | EBytes p s => T BYTES_EXPR :: str_k s (loc_k p (T END_TAG :: k))
+  | EFloat p b => T FLOAT_EXPR :: T LITERAL_FLOAT :: F b :: loc_k p (T END_TAG :: k)
+  | EComplex p a b => T COMPLEX_EXPR :: T LITERAL_FLOAT :: F a :: T LITERAL_FLOAT :: F b :: loc_k p (T END_TAG :: k)
   end
 with emit_es (es : exprs) (k : list tok) {struct es} : list tok :=
   match es with ENil => k | ECons e es' => emit_e e (emit_es es' k) end
@@ -528,7 +606,13 @@ with emit_params (ps : params) (k : list tok) {struct ps} : list tok :=
   | PCons _ sp n kd d r =>
       str_k n (int_k (argkind_idx (param_kind kd (has_default d))) (B false ::
         emit_oe d (B (emit_pos_only kd n) :: loc_k sp (emit_params r k))))
-  end.
+  end
+with emit_gtargets (g : gens) (k : list tok) {struct g} : list tok :=
+  match g with GNil => k | GCons t _ _ r => emit_e t (emit_gtargets r k) end
+with emit_giters (g : gens) (k : list tok) {struct g} : list tok :=
+  match g with GNil => k | GCons _ i _ r => emit_e i (emit_giters r k) end
+with emit_gifs (g : gens) (k : list tok) {struct g} : list tok :=
+  match g with GNil => k | GCons _ _ c r => T LIST_GEN :: nat_k (len_es c) (emit_es c (emit_gifs r k)) end.
 
 Fixpoint len_tys (a : tys) : nat := match a with TNil => O | TCons _ r => Datatypes.S (len_tys r) end.
 (* UNBOUND_TYPE name LIST_GEN args empty_tuple_index original_str_expr(None) original_str_fallback(None) loc END
@@ -729,6 +813,32 @@ Definition read_param_with (re : rd mexpr) : rd marg := fun ts =>
   | _ => None    (* has_type = true: annotated parameter, outside the fragment *)
   end.
 
+Definition read_bool : rd bool := fun ts => match ts with B b :: ts' => Some (b, ts') | _ => None end.
+Definition read_list_with {A} (r : rd A) : rd (list A) := fun ts =>
+  match ts with T LIST_GEN :: I n :: ts1 => read_n r (Z.to_nat n) ts1 | _ => None end.
+(* the comprehension data after the left expression(s): n, indices, sequences, condlists, is_async *)
+Definition read_gens_with (re : rd mexpr) : rd (list mexpr * list mexpr * list (list mexpr) * list bool) := fun ts =>
+  match ts with
+  | T LITERAL_INT :: I n :: ts1 =>
+      match read_n re (Z.to_nat n) ts1 with
+      | Some (idx, ts2) =>
+        match read_n re (Z.to_nat n) ts2 with
+        | Some (seqs, ts3) =>
+          match read_n (read_list_with re) (Z.to_nat n) ts3 with
+          | Some (conds, ts4) =>
+            match read_n read_bool (Z.to_nat n) ts4 with
+            | Some (asy, ts5) => Some ((idx, seqs, conds, asy), ts5)
+            | None => None
+            end
+          | None => None
+          end
+        | None => None
+        end
+      | None => None
+      end
+  | _ => None
+  end.
+
 Fixpoint read_expr (fuel : nat) (ts : list tok) {struct fuel} : option (mexpr * list tok) :=
   match fuel with
   | O => None
@@ -867,6 +977,74 @@ Fixpoint read_expr (fuel : nat) (ts : list tok) {struct fuel} : option (mexpr * 
     | T STAR_EXPR :: ts1 =>
         match read_expr f ts1 with
         | Some (e, ts2) => loc_finish (fun p => MStar p e) ts2
+        | None => None
+        end
+    | T ELLIPSIS_EXPR :: ts1 => loc_finish MEllipsis ts1
+    | T BYTES_EXPR :: T LITERAL_STR :: S s :: ts1 => loc_finish (fun p => MBytes p s) ts1
+    | T FLOAT_EXPR :: T LITERAL_FLOAT :: F b :: ts1 => loc_finish (fun p => MFloat p b) ts1
+    | T COMPLEX_EXPR :: T LITERAL_FLOAT :: F a :: T LITERAL_FLOAT :: F b :: ts1 => loc_finish (fun p => MComplex p a b) ts1
+    | T YIELD_EXPR :: ts1 =>
+        match read_opt (read_expr f) ts1 with
+        | Some (v, ts2) => loc_finish (fun p => MYield p v) ts2
+        | None => None
+        end
+    | T YIELD_FROM_EXPR :: ts1 =>
+        match read_expr f ts1 with
+        | Some (e, ts2) => loc_finish (fun p => MYieldFrom p e) ts2
+        | None => None
+        end
+    | T AWAIT_EXPR :: ts1 =>
+        match read_expr f ts1 with
+        | Some (e, ts2) => loc_finish (fun p => MAwait p e) ts2
+        | None => None
+        end
+    | T ASSIGNMENT_EXPR :: ts1 =>
+        match read_expr f ts1 with
+        | Some (MName tp id, ts2) =>      (* assert isinstance(target, NameExpr) *)
+          match read_expr f ts2 with
+          | Some (v, ts3) => loc_finish (fun p => MAssignExpr p (MName tp id) v) ts3
+          | None => None
+          end
+        | _ => None
+        end
+    | T GENERATOR_EXPR :: ts1 =>
+        match read_expr f ts1 with
+        | Some (lft, ts2) =>
+          match read_gens_with (read_expr f) ts2 with
+          | Some ((idx, seqs, conds, asy), ts3) => loc_finish (fun p => MGenerator p lft idx seqs conds asy) ts3
+          | None => None
+          end
+        | None => None
+        end
+    | T LIST_COMPREHENSION :: ts1 =>
+        match read_expr f ts1 with
+        | Some (lft, ts2) =>
+          match read_gens_with (read_expr f) ts2 with
+          | Some ((idx, seqs, conds, asy), ts3) => loc_finish (fun p => MListComp p (MGenerator p lft idx seqs conds asy)) ts3
+          | None => None
+          end
+        | None => None
+        end
+    | T SET_COMPREHENSION :: ts1 =>
+        match read_expr f ts1 with
+        | Some (lft, ts2) =>
+          match read_gens_with (read_expr f) ts2 with
+          | Some ((idx, seqs, conds, asy), ts3) => loc_finish (fun p => MSetComp p (MGenerator p lft idx seqs conds asy)) ts3
+          | None => None
+          end
+        | None => None
+        end
+    | T DICT_COMPREHENSION :: ts1 =>
+        match read_expr f ts1 with
+        | Some (ky, ts2) =>
+          match read_expr f ts2 with
+          | Some (v, ts3) =>
+            match read_gens_with (read_expr f) ts3 with
+            | Some ((idx, seqs, conds, asy), ts4) => loc_finish (fun p => MDictComp p ky v idx seqs conds asy) ts4
+            | None => None
+            end
+          | None => None
+          end
         | None => None
         end
     (* TEMP_NODE: a fresh TempNode (Context defaults: line -1, column -1, no end) *)
@@ -1217,6 +1395,19 @@ Fixpoint nconv_e (e : expr) : mexpr :=
   | ESlice p a b c => MSlice p (nconv_oe a) (nconv_oe b) (nconv_oe c)
   | EStar p e => MStar p (nconv_e e)
   | ELambda p ps b => MLambda p (nconv_params ps) (span (epos b) (epos b)) (epos b) (nconv_e b)
+  | EConst p c => MName p (cname_str c)
+  | EEllipsis p => MEllipsis p
+  | EComp p k elt g =>
+      let gen := MGenerator p (nconv_e elt) (nconv_gtargets g) (nconv_giters g) (nconv_gifs g) (gasync g) in
+      match k with CList => MListComp p gen | CSet => MSetComp p gen | CGen => gen end
+  | EDictComp p ky v g => MDictComp p (nconv_e ky) (nconv_e v) (nconv_gtargets g) (nconv_giters g) (nconv_gifs g) (gasync g)
+  | EYield p v => MYield p (nconv_oe v)
+  | EYieldFrom p e => MYieldFrom p (nconv_e e)
+  | EAwait p e => MAwait p (nconv_e e)
+  | EWalrus p tp id v => MAssignExpr p (MName tp id) (nconv_e v)
+  | EBytes p s => MBytes p s
+  | EFloat p b => MFloat p b
+  | EComplex p a b => MComplex p a b
   end
 with nconv_es (es : exprs) : list mexpr :=
   match es with ENil => [] | ECons e es' => nconv_e e :: nconv_es es' end
@@ -1235,7 +1426,10 @@ with nconv_params (ps : params) : list marg :=
   | PNil => []
   | PCons _ sp n k d r =>
       MArg sp sp n (param_kind k (has_default d)) (nconv_oe d) (emit_pos_only k n) :: nconv_params r
-  end.
+  end
+with nconv_gtargets (g : gens) : list mexpr := match g with GNil => [] | GCons t _ _ r => nconv_e t :: nconv_gtargets r end
+with nconv_giters (g : gens) : list mexpr := match g with GNil => [] | GCons _ i _ r => nconv_e i :: nconv_giters r end
+with nconv_gifs (g : gens) : list (list mexpr) := match g with GNil => [] | GCons _ _ c r => nconv_es c :: nconv_gifs r end.
 
 Fixpoint nconv_ty (t : ty) : mty :=
   match t with
@@ -1327,13 +1521,19 @@ Fixpoint wf_e (e : expr) : Prop :=
   | ESubscript _ v i => wf_e v /\ wf_e i
   | ESlice _ a b c => wf_oe a /\ wf_oe b /\ wf_oe c
   | EStar _ e => wf_e e
+  | EConst _ _ | EEllipsis _ | EBytes _ _ | EFloat _ _ | EComplex _ _ _ => True
+  | EYield _ v => wf_oe v
+  | EYieldFrom _ e | EAwait _ e | EWalrus _ _ _ e => wf_e e
+  | EComp _ _ elt g => wf_e elt /\ wf_gens g
+  | EDictComp _ ky v g => wf_e ky /\ wf_e v /\ wf_gens g
   | ELambda _ _ _ => False      (* fastparse leaves the end of the LambdaExpr, of its block and of its return unset *)
   end
 with wf_es (es : exprs) : Prop := match es with ENil => True | ECons e es' => wf_e e /\ wf_es es' end
 with wf_args (a : args) : Prop := match a with ANil => True | ACons _ e a' => wf_e e /\ wf_args a' end
 with wf_cmps (c : cmps) : Prop := match c with CNil => True | CCons _ e c' => wf_e e /\ wf_cmps c' end
 with wf_oe (o : oexpr) : Prop := match o with ONone => True | OSome e => wf_e e end
-with wf_ditems (d : ditems) : Prop := match d with DNil => True | DCons k v r => wf_oe k /\ wf_e v /\ wf_ditems r end.
+with wf_ditems (d : ditems) : Prop := match d with DNil => True | DCons k v r => wf_oe k /\ wf_e v /\ wf_ditems r end
+with wf_gens (g : gens) : Prop := match g with GNil => True | GCons t i c r => wf_e t /\ wf_e i /\ wf_es c /\ wf_gens r end.
 
 (* sp = p: not a `*args` / `**kwargs` parameter; and not a keyword-only / star parameter called `__x` (fastparse makes
    it positional-only, the serializer does not) *)
